@@ -460,12 +460,18 @@ class World:
         family = self.plan["slots"][slot]
         rec["family"] = family
         rec["default_dtype"] = self.intended_default
+        given = []
         self.dtype_sensitive += 1
         try:
-            status, val = cl.guarded(lambda: catalog.build(family, op["params"]))
+            status, val = cl.guarded(lambda: catalog.build(family, op["params"], given))
         finally:
             self.dtype_sensitive -= 1
         self._finish(cl, rec, status, val)
+        for a, before in given:
+            if a.tobytes() != before:
+                self.violation("I1-arg-mutated", rec, "a filter array passed to the constructor "
+                               "was modified")
+                break
         if status == "ok":
             self.iid += 1
             recipe = [["construct", family, op["params"], rec["default_dtype"]]]
@@ -500,10 +506,14 @@ class World:
         how = op["how"]
         rec["default_dtype"] = self.intended_default
         step = ["restart", how, self.intended_default]
+        # copying / checkpointing a module while another client converts it is
+        # the user's race: the restart pins the instance like a call does
         self.dtype_sensitive += 1
+        inst.inflight += 1
         try:
             status, val = cl.guarded(lambda: do_restart(self.L, inst.mod, inst.recipe, step))
         finally:
+            inst.inflight -= 1
             self.dtype_sensitive -= 1
         self._finish(cl, rec, status, val)
         if status == "ok":
@@ -765,6 +775,8 @@ class World:
         for b, before in bases:
             if storage_bytes(b) != before:
                 self.violation("I1-arg-mutated", rec, "functional call changed an input tensor")
+        if args["lo"].tobytes() != args["lo0"] or args["hi"].tobytes() != args["hi0"]:
+            self.violation("I1-arg-mutated", rec, "functional call changed a filter array it was given")
         self.live_args.append((rec, bases, None))
         if status == "ok":
             rec["out_snap"] = snap(val)
@@ -905,8 +917,13 @@ def build_pyramid(torch, fwd_family, outputs, op):
 
 
 def select_backward(torch, outputs, leaves, op):
-    outs = [t for t in flat_tensors(outputs)
-            if t.requires_grad and t.grad_fn is not None and t.dim() > 0]
+    outs = []
+    for t in flat_tensors(outputs):
+        try:
+            if t.requires_grad and t.grad_fn is not None and t.dim() > 0:
+                outs.append(t)
+        except RuntimeError:    # view whose base was modified behind our back
+            continue
     # de-duplicate shared placeholder objects
     seen = set()
     uo = []
@@ -954,7 +971,8 @@ def func_args(L, op):
         tens.append(v)
     synth = fn.startswith("sfb")
     lo, hi = (wv.rec_lo, wv.rec_hi) if synth else (wv.dec_lo, wv.dec_hi)
-    return {"bases": bases, "tens": tens, "lo": np.array(lo), "hi": np.array(hi)}
+    lo, hi = np.array(lo), np.array(hi)
+    return {"bases": bases, "tens": tens, "lo": lo, "hi": hi, "lo0": lo.tobytes(), "hi0": hi.tobytes()}
 
 
 def run_func(L, op, a):
